@@ -8,8 +8,6 @@ Local Open Scope string_scope.
 Local Open Scope list_scope.
 
 (* ---------- the sound fragment ---------- *)
-Definition flat (chld : list node) : bool := forallb is_leaf_child chld.
-
 Fixpoint sound_set (n : node) {struct n} : bool :=
   match n with
   | Node ty tn tu nm pk pki p chld mk mv sl hb hc =>
@@ -19,8 +17,7 @@ Fixpoint sound_set (n : node) {struct n} : bool :=
     | typeMap =>
       match mk, mv with
       | Some kn, Some vn =>
-        sound_set vn && negb (is_bytes_node vn) &&
-        (match n_typ vn with typeStruct => n_ptr vn || flat (n_chld vn) | _ => true end)
+        sound_set vn && negb (is_bytes_node vn)
       | _, _ => false
       end
     | typeSlice =>
@@ -72,6 +69,29 @@ Proof.
   - reflexivity.
 Qed.
 
+(* what survives of a copy of a struct of which one field was rewritten *)
+Lemma keep_shared_upd tn tu nm pk pki chld mk mv sl hb hc fs j ch f y :
+  nth_error chld j = Some ch -> nth_error fs j = Some f ->
+  keep_shared (Node typeStruct tn tu nm pk pki false chld mk mv sl hb hc) (VStruct fs) (VStruct (upd_nth j y fs)) =
+  VStruct (upd_nth j (keep_shared ch f y) fs).
+Proof.
+  intros NC NF. cbn [keep_shared]. f_equal.
+  revert fs j NC NF. induction chld as [|c r IH]; intros fs j NC NF; [destruct j; discriminate|].
+  destruct fs as [|x fr]; [destruct j; discriminate|].
+  destruct j as [|j]; simpl in NC, NF.
+  - inversion NC; inversion NF; subst. cbn [upd_nth]. f_equal.
+    clear IH. revert fr. induction r as [|c' r' IH']; intros fr; [destruct fr; reflexivity|].
+    destruct fr as [|z fr']; [reflexivity|]. rewrite keep_shared_same. f_equal. apply IH'.
+  - cbn [upd_nth]. rewrite keep_shared_same. f_equal. apply IH; assumption.
+Qed.
+
+Lemma creates_false ch f : creates ch f = false -> nil_chk ch f = f.
+Proof.
+  unfold creates, nil_chk. destruct (n_ptr ch).
+  - destruct f as [b|z|f0|s0|nb d e|fs|ns es ex|nm kvs|[y|]]; try reflexivity. discriminate.
+  - destruct (n_typ ch); destruct f as [b|z|f0|s0|nb d e|fs|[|] es ex|[|] kvs|o]; try reflexivity; discriminate.
+Qed.
+
 (* ---------- struct fields ---------- *)
 Lemma upd_nth_same {A} (l : list A) j x : nth_error l j = Some x -> upd_nth j x l = l.
 Proof.
@@ -105,7 +125,7 @@ Proof.
 Qed.
 
 (* the set-mode field walk, through the first child with the name *)
-Definition child_set (rec : node -> val -> sres) (leaf : node -> val -> val) (wbk : bool) (ch : node) (j : nat) (fs : list val) : sres :=
+Definition child_set (lg : bool) (rec : node -> val -> sres) (leaf : node -> val -> val) (wbk : bool) (ch : node) (j : nat) (fs : list val) : sres :=
   match nth_error fs j with
   | None => SPanic PTypeAssert
   | Some f =>
@@ -115,24 +135,24 @@ Definition child_set (rec : node -> val -> sres) (leaf : node -> val -> val) (wb
     else
       match rec ch (nil_chk ch f) with
       | SFall f2 => SFall (VStruct (upd_nth j f2 fs))
-      | SRet f2 _ e => SRet (VStruct (upd_nth j f2 fs)) false e
+      | SRet f2 wb e => SRet (VStruct (upd_nth j f2 fs)) (negb lg && (wb || (wbk && creates ch f))) e
       | SPanic k => SPanic k
       end
   end.
 
-Lemma set_walk_nomatch rec leaf wbk seg : forall chs idx fs,
-  find_idx seg chs idx = None -> set_walk rec leaf wbk seg chs idx fs = SFall (VStruct fs).
+Lemma set_walk_nomatch lg rec leaf wbk seg : forall chs idx fs,
+  find_idx seg chs idx = None -> set_walk lg rec leaf wbk seg chs idx fs = SFall (VStruct fs).
 Proof.
   induction chs as [|c r IH]; intros idx fs F; [reflexivity|]. cbn [set_walk]. cbn [find_idx] in F.
   destruct (String.eqb (n_name c) seg) eqn:E; [discriminate|]. rewrite String.eqb_sym, E. apply IH; exact F.
 Qed.
 
-Lemma set_walk_find rec leaf wbk seg : forall chs idx fs,
+Lemma set_walk_find lg rec leaf wbk seg : forall chs idx fs,
   names_nodup chs = true ->
-  set_walk rec leaf wbk seg chs idx fs =
+  set_walk lg rec leaf wbk seg chs idx fs =
   match find_idx seg chs idx with
   | None => SFall (VStruct fs)
-  | Some (ch, j) => child_set rec leaf wbk ch j fs
+  | Some (ch, j) => child_set lg rec leaf wbk ch j fs
   end.
 Proof.
   induction chs as [|c r IH]; intros idx fs ND; [reflexivity|]. cbn [set_walk find_idx].
@@ -348,41 +368,45 @@ Proof.
     + destruct p; [|reflexivity]. cbn [wtb] in WT. destruct f as [b|z|f0|s0|nb d e|fs|ns es ex|nmm kvs|[x|]]; try discriminate; reflexivity.
 Qed.
 
-(* ---------- what a block of emitted code must achieve ---------- *)
-Definition good (n : node) (pmap : bool) (rest : list string) (v : val) (r : sres) : Prop :=
+(* ---------- what a block of emitted code must achieve ----------
+   cp: the variable of the node is, or lies in, a COPY of a map entry (what is written to it
+   directly reaches the map only through a store-back); w: the flag the model threads (a
+   store-back is pending).  A block that returns without having stored the copy back (wb = false)
+   has changed nothing in it directly: what survives the copy is all there is. *)
+Definition good (n : node) (cp : bool) (rest : list string) (v : val) (r : sres) : Prop :=
   match r with
   | SPanic _ => False
   | SFall v' => offb E n rest v v' = true
-  | SRet v' wb e => offb E n rest v v' = true /\ (wb = false -> pmap = true -> keep_shared n v v' = v') /\
+  | SRet v' wb e => offb E n rest v v' = true /\ (wb = false -> cp = true -> keep_shared n v v' = v') /\
                     (n_typ n = typeBasic -> n_ptr n = true)
   end.
 
-Definition pre (n : node) (pmap : bool) (depth : nat) (v : val) : Prop :=
+Definition pre (n : node) (cp w : bool) (depth : nat) (v : val) : Prop :=
   (n_typ n = typeSlice -> is_bytes_node n = false) /\
   (n_typ n = typeMap -> n_ptr n = false -> depth <> 0 -> is_nil_val v = false) /\
-  (pmap = true -> depth <> 0 /\ (n_typ n = typeStruct -> n_ptr n = false -> flat (n_chld n) = true)).
+  (cp = true -> depth <> 0 /\ (n_typ n = typeStruct -> n_ptr n = false -> w = true)).
 
 Definition rec_ok (rec : node -> bool -> val -> sres) (depth : nat) (rest' : list string) (ch : node) : Prop :=
-  wfn ch = true -> sound_set ch = true -> forall pm f, wtb ch f = true -> pre ch pm (S depth) f ->
-  good ch pm rest' f (rec ch pm f).
+  wfn ch = true -> sound_set ch = true -> forall cp w f, wtb ch f = true -> pre ch cp w (S depth) f ->
+  good ch cp rest' f (rec ch w f).
 
 (* the same, for the value behind the variable of a node whose pointer flag is p *)
-Definition goodb (n0 : node) (p pmap : bool) (rest : list string) (x : val) (r : sres) : Prop :=
+Definition goodb (n0 : node) (p cp : bool) (rest : list string) (x : val) (r : sres) : Prop :=
   match r with
   | SPanic _ => False
   | SFall x' => offb E n0 rest x x' = true
-  | SRet x' wb e => offb E n0 rest x x' = true /\ (wb = false -> pmap = true -> p = false -> keep_shared n0 x x' = x')
+  | SRet x' wb e => offb E n0 rest x x' = true /\ (wb = false -> cp = true -> p = false -> keep_shared n0 x x' = x')
   end.
 
-Lemma core_struct rec tn tu nm pk pki p chld mk mv sl hb hc self pmap depth path seg rest' fs :
+Lemma core_struct rec tn tu nm pk pki p chld mk mv sl hb hc self cp w depth path seg rest' fs :
   wfn (Node typeStruct tn tu nm pk pki false chld mk mv sl hb hc) = true ->
   sound_set (Node typeStruct tn tu nm pk pki false chld mk mv sl hb hc) = true ->
   wtb (Node typeStruct tn tu nm pk pki false chld mk mv sl hb hc) (VStruct fs) = true ->
   nth_error path depth = Some seg ->
   Forall (rec_ok rec depth rest') chld ->
-  (pmap = true -> p = false -> flat chld = true) ->
-  goodb (Node typeStruct tn tu nm pk pki false chld mk mv sl hb hc) p pmap (seg :: rest') (VStruct fs)
-        (set_body rec s buf typeStruct tn p chld mk mv sl self pmap depth path (VStruct fs)).
+  (cp = true -> p = false -> w = true) ->
+  goodb (Node typeStruct tn tu nm pk pki false chld mk mv sl hb hc) p cp (seg :: rest') (VStruct fs)
+        (set_body false rec s buf typeStruct tn p chld mk mv sl self w depth path (VStruct fs)).
 Proof.
   intros W SD WT NP HC FL. cbn [set_body]. rewrite NP.
   cbn [wfn] in W. apply andb_true_iff in W. destruct W as (W & WC). apply andb_true_iff in W. destruct W as (_ & ND).
@@ -407,30 +431,34 @@ Proof.
     + cbn [goodb]. split; [|intros _ _ _; apply keep_shared_same].
       rewrite <- (upd_nth_same fs j f NF) at 2. rewrite UPD.
       apply andb_true_iff in NILP. destruct NILP as (PC & NI).
-      destruct ch as [cty ctn ctu cnm cpk cpki cp cchld cmk cmv csl chb chc]. cbn [n_ptr] in PC. subst cp.
+      destruct ch as [cty ctn ctu cnm cpk cpki cptr cchld cmk cmv csl chb chc]. cbn [n_ptr] in PC. subst cptr.
       cbn [wtb] in WTf. destruct f as [b|z|f0|s0|nb d e|fs0|ns es ex|nmm kvs|[x|]]; try discriminate.
       apply offb_nilptr. reflexivity.
     + cbn [goodb]. split.
       * rewrite UPD. apply offb_leaf; auto.
-      * intros WB PM PF. rewrite PM, PF in WB. discriminate WB.
+      * intros WB PM PF. rewrite (FL PM PF) in WB. discriminate WB.
   - assert (NLF : is_leaf_node ch = false) by exact LF.
-    pose proof (Forall_nth _ _ _ _ HC NT Wch Sch false (nil_chk ch f) (wtb_nil_chk ch f Wch NLF WTf)) as G.
-    assert (PRE : pre ch false (S depth) (nil_chk ch f)).
+    cbn [negb]. rewrite andb_true_r.
+    pose proof (Forall_nth _ _ _ _ HC NT Wch Sch w w (nil_chk ch f) (wtb_nil_chk ch f Wch NLF WTf)) as G.
+    assert (PRE : pre ch w w (S depth) (nil_chk ch f)).
     { split; [|split].
       - intros TS. unfold is_leaf_child in LF. rewrite TS in LF. exact LF.
       - intros TM PF _. apply nil_chk_nonnil; auto.
-      - discriminate. }
+      - intros WT'. split; [discriminate|]. intros _ _. exact WT'. }
     specialize (G PRE).
-    destruct (rec ch false (nil_chk ch f)) as [f2|f2 wb e|k]; cbn [good] in G.
+    destruct (rec ch w (nil_chk ch f)) as [f2|f2 wb e|k]; cbn [good] in G.
     + cbn [goodb]. rewrite UPD. apply offb_nil_chk; auto.
-    + cbn [goodb]. destruct G as (G & _). split.
+    + cbn [goodb andb]. destruct G as (G & GK & _). split.
       * rewrite UPD. apply offb_nil_chk; auto.
-      * intros _ PM PF. specialize (FL PM PF). unfold flat in FL.
-        pose proof (forallb_nth _ _ _ _ FL NT) as L2. congruence.
+      * (* not stored back below an entry: nothing was allocated here and the child changed nothing directly *)
+        intros WB PM PF. specialize (FL PM PF). subst w. cbn [andb] in WB.
+        apply orb_false_iff in WB. destruct WB as (WB & CR).
+        rewrite (creates_false _ _ CR) in GK.
+        rewrite (keep_shared_upd tn tu nm pk pki chld mk mv sl hb hc fs j ch f f2 NT NF), (GK WB eq_refl). reflexivity.
     + exact G.
 Qed.
 
-Lemma core_slice rec tn tu nm pk pki p chld mk mv en hb hc self pmap depth path seg rest' nl es ex :
+Lemma core_slice rec tn tu nm pk pki p chld mk mv en hb hc self cp w depth path seg rest' nl es ex :
   String.eqb tn "[]byte" = false ->
   wfn en = true -> sound_set en = true -> is_bytes_node en = false ->
   (match n_typ en with typeMap => true | _ => false end) && negb (n_ptr en) = false ->
@@ -438,8 +466,8 @@ Lemma core_slice rec tn tu nm pk pki p chld mk mv en hb hc self pmap depth path 
   forallb (wtb en) es = true ->
   nth_error path depth = Some seg ->
   rec_ok rec depth rest' en ->
-  goodb (Node typeSlice tn tu nm pk pki false chld mk mv (Some en) hb hc) p pmap (seg :: rest') (VSlice nl es ex)
-        (set_body rec s buf typeSlice tn p chld mk mv (Some en) self pmap depth path (VSlice nl es ex)).
+  goodb (Node typeSlice tn tu nm pk pki false chld mk mv (Some en) hb hc) p cp (seg :: rest') (VSlice nl es ex)
+        (set_body false rec s buf typeSlice tn p chld mk mv (Some en) self w depth path (VSlice nl es ex)).
 Proof.
   intros BY We Se NBe NMe CVe WT NP HR. cbn [set_body]. rewrite BY, NP.
   assert (NN : negb nl || nl = true) by (destruct nl; reflexivity).
@@ -452,19 +480,20 @@ Proof.
   assert (JL : Z.to_nat i < List.length es) by lia.
   destruct (nth_error_ex es _ JL) as (e0 & NE). rewrite NE.
   assert (WTe : wtb en e0 = true) by (rewrite forallb_forall in WT; apply WT; eapply nth_error_In; eauto).
-  assert (PRE : pre en false (S depth) e0).
+  cbn [negb]. rewrite andb_true_r.
+  assert (PRE : pre en false w (S depth) e0).
   { split; [|split].
     - intros _. exact NBe.
     - intros TM PF _. rewrite TM, PF in NMe. discriminate NMe.
     - discriminate. }
-  pose proof (HR We Se false e0 WTe PRE) as G.
+  pose proof (HR We Se false w e0 WTe PRE) as G.
   assert (UPD : forall y, offb E (Node typeSlice tn tu nm pk pki false chld mk mv (Some en) hb hc) (seg :: rest') (VSlice nl es ex)
                                (VSlice nl (upd_nth (Z.to_nat i) y es) ex) = offb E en rest' e0 y).
   { intros y. cbn [offb]. rewrite BY, CI, RG, NN. cbn [andb].
     apply (elems_off_upd (fun e e' => offb E en rest' e e') es 0 (Z.to_nat i) e0 y NE). }
   assert (KS : forall y, keep_shared (Node typeSlice tn tu nm pk pki false chld mk mv (Some en) hb hc) (VSlice nl es ex) y = y).
   { intros y. cbn [keep_shared]. rewrite BY. destruct es; [destruct (Z.to_nat i); discriminate|reflexivity]. }
-  destruct (rec en false e0) as [e2|e2 wb e|k]; cbn [good] in G.
+  destruct (rec en w e0) as [e2|e2 wb e|k]; cbn [good] in G.
   - cbn [goodb]. split; [rewrite UPD; exact G|intros _ _ _; apply KS].
   - destruct G as (G & _ & GB).
     destruct (is_builtin (n_typn en) && negb (n_ptr en)) eqn:CV.
@@ -474,23 +503,23 @@ Proof.
   - exact G.
 Qed.
 
-Lemma core_map rec tn tu nm pk pki p chld kn vn sl hb hc self pmap depth path seg rest' nl kvs :
+Lemma core_map rec tn tu nm pk pki p chld kn vn sl hb hc self cp w depth path seg rest' nl kvs :
   wfn (Node typeMap tn tu nm pk pki false chld (Some kn) (Some vn) sl hb hc) = true ->
   sound_set (Node typeMap tn tu nm pk pki false chld (Some kn) (Some vn) sl hb hc) = true ->
   wtb (Node typeMap tn tu nm pk pki false chld (Some kn) (Some vn) sl hb hc) (VMap nl kvs) = true ->
   nth_error path depth = Some seg ->
   rec_ok rec depth rest' vn ->
   (p = false -> depth <> 0 -> nl = false) ->
-  (pmap = true -> depth <> 0) ->
-  goodb (Node typeMap tn tu nm pk pki false chld (Some kn) (Some vn) sl hb hc) p pmap (seg :: rest') (VMap nl kvs)
-        (set_body rec s buf typeMap tn p chld (Some kn) (Some vn) sl self pmap depth path (VMap nl kvs)).
+  (cp = true -> depth <> 0) ->
+  goodb (Node typeMap tn tu nm pk pki false chld (Some kn) (Some vn) sl hb hc) p cp (seg :: rest') (VMap nl kvs)
+        (set_body false rec s buf typeMap tn p chld (Some kn) (Some vn) sl self w depth path (VMap nl kvs)).
 Proof.
   intros W SD WT NP HR NLH PMD. cbn [set_body]. rewrite NP.
   cbn [wfn] in W. apply andb_true_iff in W. destruct W as (_ & W).
   apply andb_true_iff in W. destruct W as (W & KS). apply andb_true_iff in W. destruct W as (W & KB).
   apply andb_true_iff in W. destruct W as (Wk & Wv).
   destruct (n_typ kn) eqn:KT; try discriminate.
-  cbn [sound_set] in SD. apply andb_true_iff in SD. destruct SD as (SD & FLv). apply andb_true_iff in SD. destruct SD as (Sv & NBv).
+  cbn [sound_set] in SD. apply andb_true_iff in SD. destruct SD as (Sv & NBv).
   apply negb_true_iff in NBv.
   cbn [wtb] in WT.
   assert (NL0 : (if p || Nat.eqb depth 0 then false else nl) = false).
@@ -499,7 +528,7 @@ Proof.
   assert (KEY : (if is_string_key kn then Some (VStr seg) else conv_key kn seg) = conv_key kn seg).
   { destruct (is_string_key kn) eqn:SK; [|reflexivity]. symmetry. apply string_key_conv; auto. }
   rewrite KEY.
-  assert (KSN : forall x', pmap = true -> p = false ->
+  assert (KSN : forall x', cp = true -> p = false ->
             keep_shared (Node typeMap tn tu nm pk pki false chld (Some kn) (Some vn) sl hb hc) (VMap nl kvs) x' = x').
   { intros x' PM PF. cbn [keep_shared]. rewrite (NLH PF (PMD PM)). reflexivity. }
   destruct (conv_key kn seg) as [k|] eqn:CK.
@@ -521,14 +550,15 @@ Proof.
     apply negb_true_iff in A2. unfold is_leaf_node. destruct (n_typ vn); try discriminate. auto. }
   assert (WT1 : wtb vn e1 = true).
   { unfold e1. destruct alloc eqn:A; [|exact WT0]. apply wtb_nil_chk; auto. apply NLv; reflexivity. }
-  assert (PRE : pre vn true (S depth) e1).
+  set (wv := (match n_typ vn with typeStruct => true | _ => false end) && negb (n_ptr vn)).
+  assert (PRE : pre vn true wv (S depth) e1).
   { split; [|split].
     - intros _. exact NBv.
     - intros TM PF _. unfold e1. destruct alloc eqn:A.
       + apply nil_chk_nonnil; auto.
       + unfold alloc in A. rewrite TM, PF in A. simpl in A. exact A.
-    - intros _. split; [discriminate|]. intros TS PF. rewrite TS in FLv. rewrite PF in FLv. exact FLv. }
-  pose proof (HR Wv Sv true e1 WT1 PRE) as G.
+    - intros _. split; [discriminate|]. intros TS PF. unfold wv. rewrite TS, PF. reflexivity. }
+  pose proof (HR Wv Sv true wv e1 WT1 PRE) as G.
   assert (E01 : forall e2, offb E vn rest' e1 e2 = true -> offb E vn rest' e0 e2 = true).
   { intros e2 H. unfold e1 in H. destruct alloc eqn:A; [|exact H]. apply offb_nil_chk; auto. apply NLv; reflexivity. }
   assert (OFF : forall e2, offb E vn rest' e1 e2 = true ->
@@ -542,7 +572,7 @@ Proof.
     destruct (key_eqb_dich k KV) as [R|N].
     - rewrite (map_find_put kvs k e2 R). destruct (map_find kvs k); exact H.
     - rewrite (map_find_nokey kvs k N), (map_find_nokey _ k N). reflexivity. }
-  destruct (rec vn true e1) as [e2|e2 wb e|pk']; cbn [good] in G.
+  destruct (rec vn wv e1) as [e2|e2 wb e|pk']; cbn [good] in G.
   - cbn [goodb]. split; [apply OFF; exact G|intros _; apply KSN].
   - destruct G as (G & GK & _). destruct wb.
     + cbn [goodb]. split; [apply OFF; exact G|intros _; apply KSN].
@@ -561,10 +591,10 @@ Proof.
 Qed.
 
 (* ---------- the main lemma: all nodes, by induction ---------- *)
-Lemma goodb_good_ptr ty tn tu nm pk pki chld mk mv sl hb hc pmap seg rest' x r :
+Lemma goodb_good_ptr ty tn tu nm pk pki chld mk mv sl hb hc cp seg rest' x r :
   ty <> typeBasic ->
-  goodb (Node ty tn tu nm pk pki false chld mk mv sl hb hc) true pmap (seg :: rest') x r ->
-  good (Node ty tn tu nm pk pki true chld mk mv sl hb hc) pmap (seg :: rest') (VPtr (Some x)) (wrap_ptr r).
+  goodb (Node ty tn tu nm pk pki false chld mk mv sl hb hc) true cp (seg :: rest') x r ->
+  good (Node ty tn tu nm pk pki true chld mk mv sl hb hc) cp (seg :: rest') (VPtr (Some x)) (wrap_ptr r).
 Proof.
   intros NB G. destruct r as [x'|x' wb e|k]; cbn [wrap_ptr good goodb] in *.
   - exact G.
@@ -572,20 +602,20 @@ Proof.
   - exact G.
 Qed.
 
-Lemma goodb_good_val ty tn tu nm pk pki chld mk mv sl hb hc pmap rest x r :
+Lemma goodb_good_val ty tn tu nm pk pki chld mk mv sl hb hc cp rest x r :
   ty <> typeBasic ->
-  goodb (Node ty tn tu nm pk pki false chld mk mv sl hb hc) false pmap rest x r ->
-  good (Node ty tn tu nm pk pki false chld mk mv sl hb hc) pmap rest x r.
+  goodb (Node ty tn tu nm pk pki false chld mk mv sl hb hc) false cp rest x r ->
+  good (Node ty tn tu nm pk pki false chld mk mv sl hb hc) cp rest x r.
 Proof.
   intros NB G. destruct r as [x'|x' wb e|k]; cbn [good goodb] in *; auto.
   destruct G as (G & K). split; [exact G|]. split; [intros A B; apply K; auto|]. cbn [n_typ]. intros T; congruence.
 Qed.
 
 Lemma set_node_good : forall n, wfn n = true -> sound_set n = true ->
-  forall pmap v depth path rest, wtb n v = true -> skipn depth path = rest -> depth <= List.length path ->
-  pre n pmap depth v -> good n pmap rest v (set_node s buf n pmap v depth path).
+  forall cp w v depth path rest, wtb n v = true -> skipn depth path = rest -> depth <= List.length path ->
+  pre n cp w depth v -> good n cp rest v (set_node false s buf n w v depth path).
 Proof.
-  intros n. induction n using node_ind'. intros W SD pmap v depth path rest WT SK LE PRE.
+  intros n. induction n using node_ind'. intros W SD cp w v depth path rest WT SK LE PRE.
   cbn [set_node]. destruct PRE as (PB & PM & PP). cbn [n_typ n_ptr n_chld] in PB, PM, PP.
   destruct ty eqn:TY.
   4:{ (* basic: the leaf is assigned whatever the rest of the path *)
@@ -606,8 +636,8 @@ Proof.
       replace (Nat.ltb depth (List.length path)) with true by (symmetry; apply Nat.ltb_lt; apply Nat.ltb_ge in R2; lia);
       cbn [negb] ].
   - (* struct *)
-    assert (HC : Forall (rec_ok (fun ch pm f => set_node s buf ch pm f (S depth) path) depth rest') chld).
-    { eapply Forall_impl; [|exact H]. intros ch IH Wc Sc pm f WTf PREf. apply IH; auto. }
+    assert (HC : Forall (rec_ok (fun ch w' f => set_node false s buf ch w' f (S depth) path) depth rest') chld).
+    { eapply Forall_impl; [|exact H]. intros ch IH Wc Sc cp' w' f WTf PREf. apply IH; auto. }
     destruct p.
     + cbn [wtb] in WT. destruct v as [b|z|f0|s0|nb d e|fs|ns es ex|nmm kvs|[x|]]; try discriminate.
       * destruct x as [b|z|f0|s0|nb d e|fs|ns es ex|nmm kvs|o]; try discriminate.
@@ -616,12 +646,12 @@ Proof.
       * cbn [good]. split; [apply offb_nilptr; reflexivity|]. split; [intros _ _; reflexivity|intros T; discriminate T].
     + assert (WT' := WT). cbn [wtb] in WT'. destruct v as [b|z|f0|s0|nb d e|fs|ns es ex|nmm kvs|o]; try discriminate.
       apply goodb_good_val; [discriminate|].
-      apply core_struct; auto. intros PMT _. apply PP; auto.
+      apply core_struct; auto. intros PMT _. apply (proj2 (PP PMT)); reflexivity.
   - (* map *)
     assert (WW := W). cbn [wfn] in WW. apply andb_true_iff in WW. destruct WW as (_ & WW).
     destruct mk as [kn|]; [|discriminate]. destruct mv as [vn|]; [|discriminate].
-    assert (HR : rec_ok (fun ch pm f => set_node s buf ch pm f (S depth) path) depth rest' vn).
-    { intros Wc Sc pm f WTf PREf. apply (H1 vn eq_refl); auto. }
+    assert (HR : rec_ok (fun ch w' f => set_node false s buf ch w' f (S depth) path) depth rest' vn).
+    { intros Wc Sc cp' w' f WTf PREf. apply (H1 vn eq_refl); auto. }
     destruct p.
     + cbn [wtb] in WT. destruct v as [b|z|f0|s0|nb d e|fs|ns es ex|nmm kvs|[x|]]; try discriminate.
       * destruct x as [b|z|f0|s0|nb d e|fs|ns es ex|nmm kvs|o]; try discriminate.
@@ -640,8 +670,8 @@ Proof.
     assert (SS := SD). cbn [sound_set] in SS. rewrite PB in SS. cbn [orb] in SS.
     apply andb_true_iff in SS. destruct SS as (SS & CVe). apply andb_true_iff in SS. destruct SS as (SS & NMe).
     apply andb_true_iff in SS. destruct SS as (Se & NBe). apply negb_true_iff in NBe. apply negb_true_iff in NMe.
-    assert (HR : rec_ok (fun ch pm f => set_node s buf ch pm f (S depth) path) depth rest' en).
-    { intros Wc Sc pm f WTf PREf. apply (H2 en eq_refl); auto. }
+    assert (HR : rec_ok (fun ch w' f => set_node false s buf ch w' f (S depth) path) depth rest' en).
+    { intros Wc Sc cp' w' f WTf PREf. apply (H2 en eq_refl); auto. }
     destruct p.
     + cbn [wtb] in WT. rewrite PB in WT. destruct v as [b|z|f0|s0|nb d e|fs|ns es ex|nmm kvs|[x|]]; try discriminate.
       * destruct x as [b|z|f0|s0|nb d e|fs|ns es ex|nmm kvs|o]; try discriminate.
@@ -667,17 +697,17 @@ Theorem set_method_sound s buf n v path :
   end.
 Proof.
   intros W SD RO WT. unfold root_ok in RO. apply andb_true_iff in RO. destruct RO as (NP & RT). apply negb_true_iff in NP.
-  unfold set_method. destruct path as [|seg rest].
+  unfold set_method, set_method_of. destruct path as [|seg rest].
   - destruct n as [ty tn tu nm pk pki p chld mk mv sl hb hc]. cbn [offb]. unfold E_end, is_leaf_node. cbn [n_typ] in *.
     destruct ty; try discriminate; try (rewrite val_eqb_refl; reflexivity).
     apply negb_true_iff in RT. rewrite RT, val_eqb_refl. reflexivity.
-  - assert (PRE : pre n false 0 v).
+  - assert (PRE : pre n false false 0 v).
     { split; [|split].
       - intros TS. rewrite TS in RT. apply negb_true_iff in RT. exact RT.
       - intros _ _ D. exfalso. apply D. reflexivity.
       - discriminate. }
-    pose proof (set_node_good s buf n W SD false v 0 (seg :: rest) (seg :: rest) WT eq_refl (Nat.le_0_l _) PRE) as G.
-    destruct (set_node s buf n false v 0 (seg :: rest)) as [v'|v' wb e|k]; cbn [good] in G; tauto.
+    pose proof (set_node_good s buf n W SD false false v 0 (seg :: rest) (seg :: rest) WT eq_refl (Nat.le_0_l _) PRE) as G.
+    destruct (set_node false s buf n false v 0 (seg :: rest)) as [v'|v' wb e|k]; cbn [good] in G; tauto.
 Qed.
 
 Corollary set_method_no_panic s buf n v path :
